@@ -71,6 +71,13 @@ struct lsearchk_cgdescent_t::interval_t
         }
     }
 
+    bool ok(const scalar_t c1, const scalar_t c2, const scalar_t epsilonk) const
+    {
+        // NB: the search may also stop because bracketing failed or diverged: success only if the conditions hold!
+        return c.valid() && ((c.has_armijo(state0, descent, step_size, c1) && c.has_wolfe(state0, descent, c2)) ||
+                             (c.has_approx_armijo(state0, epsilonk) && c.has_approx_wolfe(state0, descent, c1, c2)));
+    }
+
     // attributes
     const solver_state_t& state0;    ///< original point
     const vector_t&       descent;   ///< descent direction
@@ -185,14 +192,14 @@ lsearchk_t::result_t lsearchk_cgdescent_t::do_get(const solver_state_t& state0, 
     auto interval = interval_t{state0, descent, step_size, state};
     if (interval.done(params.m_c1, params.m_c2, params.m_epsilonk, false))
     {
-        return {state.valid(), interval.step_size};
+        return {interval.ok(params.m_c1, params.m_c2, params.m_epsilonk), interval.step_size};
     }
 
     // bracket the initial step size
     bracket(interval, params, logger);
     if (interval.done(params.m_c1, params.m_c2, params.m_epsilonk))
     {
-        return {state.valid(), interval.step_size};
+        return {interval.ok(params.m_c1, params.m_c2, params.m_epsilonk), interval.step_size};
     }
 
     const auto move_update_and_check_done = [&](const auto t)
@@ -226,20 +233,20 @@ lsearchk_t::result_t lsearchk_cgdescent_t::do_get(const solver_state_t& state0, 
 
         if (const auto tc = lsearch_step_t::secant(a0, b0); move_update_and_check_done(tc))
         {
-            return {state.valid(), interval.step_size};
+            return {interval.ok(params.m_c1, params.m_c2, params.m_epsilonk), interval.step_size};
         }
         else if (std::fabs(tc - a.t) < epsilon0<scalar_t>())
         {
             if (move_update_and_check_done(lsearch_step_t::secant(a0, a)))
             {
-                return {state.valid(), interval.step_size};
+                return {interval.ok(params.m_c1, params.m_c2, params.m_epsilonk), interval.step_size};
             }
         }
         else if (std::fabs(tc - b.t) < epsilon0<scalar_t>())
         {
             if (move_update_and_check_done(lsearch_step_t::secant(b0, b)))
             {
-                return {state.valid(), interval.step_size};
+                return {interval.ok(params.m_c1, params.m_c2, params.m_epsilonk), interval.step_size};
             }
         }
 
@@ -248,7 +255,7 @@ lsearchk_t::result_t lsearchk_cgdescent_t::do_get(const solver_state_t& state0, 
         {
             if (move_update_and_check_done((a.t + b.t) / 2))
             {
-                return {state.valid(), interval.step_size};
+                return {interval.ok(params.m_c1, params.m_c2, params.m_epsilonk), interval.step_size};
             }
         }
     }
